@@ -5,6 +5,12 @@ HERE = os.path.dirname(os.path.dirname(os.path.abspath(__file__)))
 PROPS = [json.loads(l) for l in open(os.path.join(HERE, 'properties.jsonl'))]
 
 CLAIMED = {
+ 'C06': dict(
+   category='proof',
+   text='Every method of the real DependencyTracker is executed symbolically from an arbitrary well-formed state (dict-of-lists and list abstracted as multisets) and its contract discharged by z3: add_unmet/meet change exactly one count and nothing else; has_unmet/has_met/unmet_dependencies are exact and side-effect free; the drained generator met_dependents() is verified with a pointwise loop invariant (conservation released+remaining = registered for met keys, unmet keys untouched, a key with waiters stays met) and a lexicographic variant, giving: every registered wait on a met dependency is released exactly once, none on an unmet one, the met list ends empty, for every history and every order. Solver-level work bounds are stated in contracts/core/solver.py.',
+   design_ref='DESIGN 3, 4 C06',
+   note='A-BAG (order-irrelevant lists as multisets), A-GEN (generator drained atomically at its call sites). A non-discharged obligation is concretised on the real class over small states; only then is it reported as a violation.',
+   technique='method contracts + loop invariant/variant on the real code via symbolic execution with multiset views, z3'),
  'C15': dict(
    category='proof',
    text='(a) Non-negativity as a postcondition of every line in the frozen list (about 530 numeric lines per year: deductions, taxable income, tax, credits, payments, refund, owed): each returning path of the real line yields a value >= 0 for all inputs, assuming non-negative amount inputs and the contracts of the lines it reads (>= 0 for listed lines, and their own definitions unfolded up to 6 levels where needed), Sigma-sums non-negative by a base/step lemma on the summand. (b) Balance identities as lemmas over the definitions of the real lines 34/35a/36/37 (overpayment - owed = payments - tax; at most one positive; refund + applied = overpayment) and the NC lines 26a/28/33/34/refund, with stored values as exact decimals. z3, unbounded in inputs and in the number of W-2/1099 copies.',
